@@ -662,8 +662,10 @@ Print Assumptions C03_histc_example_run.
     make_node), clone, drop, gc (roots: the handles AND the manager's tautology chain), add_vars (chain
     rebuilt), set_var_order (chain dropped and rebuilt) - from the empty ZBDD manager, for every operand
     order [gt] and every cache that only serves what was added ([zlossy]).  The apply cache is kept by
-    add_vars; the algorithms access it through [zcgetN n] / [zcaddN n] (n = current number of levels):
-    Restrict entries are keyed by the number of levels (notes/HISTz.md). *)
+    add_vars; Restrict entries are keyed by the number of levels in the model of restrict itself
+    (DD/ZbddBool.v [zrestrict], as the code since f8637cd), the state machine runs on the plain cache.
+    [zcgetN n] / [zcaddN n] is the view through which the un-keyed restrict of the code before the fix
+    ([zrestrict_unkeyed]) becomes the model: C03_histz_cache_view_restrict (notes/HISTz.md, notes/SYNCZ.md). *)
 From Coq Require Import Bool List NArith PArith FMapPositive.
 From OxiVerif Require Import DD.Sem DD.Build DD.Apply DD.ConfigApply DD.FamSpec DD.ZbddOps DD.ZbddOpsProofs DD.ZbddBool
   DD.ZbddBoolProofs DD.ZbddEvalProofs Mgr.LevelSwapZ Mgr.LevelSwapZProofs Mgr.HistoryExamples
@@ -680,7 +682,7 @@ Theorem C03_histz_reach_unfold :
 Proof. exact (fun gt C cget cadd cempty n st => iff_refl _). Qed.
 Print Assumptions C03_histz_reach_unfold.
 
-(* the cache as a manager with n levels accesses it: Restrict entries carry n as last numeric operand, every other code is untouched *)
+(* the view of the cache that adds what f8637cd added: Restrict entries carry n as last numeric operand, every other code is untouched *)
 Theorem C03_histz_cache_view :
   forall (C : Type) (cget : C -> N -> list ref -> list nat -> option ref)
   (cadd : C -> N -> list ref -> list nat -> ref -> C) (n : nat) (c : C) (code : N) (args : list ref)
@@ -699,6 +701,15 @@ Theorem C03_histz_cache_view_lossy :
 Proof. exact zlossyN. Qed.
 Print Assumptions C03_histz_cache_view_lossy.
 
+(* restrict as it was before f8637cd, on the cache seen through the view at the current number of levels, IS the model of restrict (whose key carries the number of levels) on the plain cache *)
+Theorem C03_histz_cache_view_restrict :
+  forall (C : Type) (cget : C -> N -> list ref -> list nat -> option ref)
+  (cadd : C -> N -> list ref -> list nat -> ref -> C) (fuel : nat) (s : snap) (c : C) (f vars : ref) (level : nat),
+  zrestrict_unkeyed C (zcgetN C cget (nlevels s)) (zcaddN C cadd (nlevels s)) fuel s c f vars level =
+  zrestrict C cget cadd fuel s c f vars level.
+Proof. exact zrestrict_view. Qed.
+Print Assumptions C03_histz_cache_view_restrict.
+
 (* no Restrict entry is keyed with a number of levels the manager has not reached *)
 Theorem C03_histz_nofuture_unfold :
   forall (C : Type) (cget : C -> N -> list ref -> list nat -> option ref) (n : nat) (c : C),
@@ -706,13 +717,13 @@ Theorem C03_histz_nofuture_unfold :
 Proof. exact (fun C cget n c => iff_refl _). Qed.
 Print Assumptions C03_histz_nofuture_unfold.
 
-(* the invariant that holds whenever no operation is in progress: well-formed ZBDD table, complete tautology chain, valid cache (as seen with the current number of levels), no Restrict entry of a future number of levels *)
+(* the invariant that holds whenever no operation is in progress: well-formed ZBDD table, complete tautology chain, valid cache (the plain cache: a Restrict entry keyed with the table's number of levels is correct, DD/ZbddBoolProofs.v zentry_x; restated by SYNCZ, equivalent to the former statement about the view at the current number of levels), no Restrict entry of a future number of levels *)
 Theorem C03_histz_inv_unfold :
   forall (C : Type) (cget : C -> N -> list ref -> list nat -> option ref) (st : hstate_z C),
   HInvZ C cget st <->
   ZbddOK (hz_s C st) /\
   ZChainOK (hz_s C st) /\
-  ZCacheOKB C (zcgetN C cget (nlevels (hz_s C st))) (hz_s C st) (hz_c C st) /\
+  ZCacheOKB C cget (hz_s C st) (hz_c C st) /\
   znofuture C cget (nlevels (hz_s C st)) (hz_c C st).
 Proof. exact hinvz_unfold. Qed.
 Print Assumptions C03_histz_inv_unfold.
